@@ -39,6 +39,8 @@ type Program struct {
 	externs   map[string]*Contract // extern contracts by full name e.g. "fmt.Errorf"
 	modCache  map[*ssa.Function]*modInfo
 	ifaceContracts map[string]*Contract
+	constGlobals map[*ssa.Global]*Term
+	ghostZero map[string][][2]string // type -> (ghost field, initial value) of a freshly allocated object
 	heapVars  map[*Term]heapVarInfo
 	heapTypes map[string]types.Type
 }
@@ -182,6 +184,12 @@ func (p *Program) Bind() {
 				p.bindErrs = append(p.bindErrs, fmt.Sprintf("%s:%d: duplicate pure func %s", sf.Path, pf.Line, pf.Name))
 			}
 			p.pures[pf.Name] = pf
+		}
+		for _, gz := range sf.GhostZero {
+			if p.ghostZero == nil {
+				p.ghostZero = map[string][][2]string{}
+			}
+			p.ghostZero[gz[0]] = append(p.ghostZero[gz[0]], [2]string{gz[1], gz[2]})
 		}
 		p.axioms = append(p.axioms, sf.Axioms...)
 		p.lemmas = append(p.lemmas, sf.Lemmas...)
